@@ -39,6 +39,24 @@ Theorem C19_call_order_as_in_source :
 Proof. exact call_order_as_modelled. Qed.
 Print Assumptions C19_call_order_as_in_source.
 
+(* The JSON names, their order and omitempty flags of the structs json.Marshal works from, re-read on
+   every run (spec.Artifact from the repository, the image-spec structs from the module cache at the
+   version of go.mod), are the ones the modelled encoder writes. *)
+Theorem C19_json_struct_tags_as_in_source :
+  Artifact_json_tags =
+    [(b "mediaType", false); (b "artifactType", false); (b "blobs", true); (b "subject", true); (b "annotations", true)] /\
+  Manifest_json_tags =
+    [(b "<embedded specs.Versioned>", false); (b "mediaType", true); (b "artifactType", true); (b "config", false);
+     (b "layers", false); (b "subject", true); (b "annotations", true)] /\
+  Versioned_json_tags = [(b "schemaVersion", false)] /\
+  Descriptor_json_tags =
+    [(b "mediaType", false); (b "digest", false); (b "size", false); (b "urls", true); (b "annotations", true);
+     (b "data", true); (b "platform", true); (b "artifactType", true)] /\
+  Platform_json_tags =
+    [(b "architecture", false); (b "os", false); (b "os.version", true); (b "os.features", true); (b "variant", true)].
+Proof. exact json_tags_as_modelled. Qed.
+Print Assumptions C19_json_struct_tags_as_in_source.
+
 (* Every call of PackManifest / Pack ends in exactly one of five ways (rejected before any
    storage operation / malformed created / storage fault while handling "{}" / storage
    fault on the manifest push / success); this is the invariant the other theorems unfold. *)
